@@ -26,8 +26,11 @@ class Side:
         self.nanos = ex.fresh_int(label + 'ns', 0, B.NANOS - 1)
         self.mode = ex.fresh_int(label + 'mode', 0, 0o7777)
         self.user, self.target = 1, 1
+        if detail:
+            # owner: 0 = a group without a user name (half-named), 1 = 'root'; on both sides, so that "the same half-named owner
+            # on both sides" (no change) is among the cases
+            self.user = ex.concretize(ex.fresh_int(label + 'user', 0, 1), 0, 1, 'user')
         if detail and label.startswith('s'):
-            self.user = ex.concretize(ex.fresh_int(label + 'user', 0, 1), 0, 1, 'user')      # stored owner: 0 none, 1 'root'
             if self.kind == 'Symlink' and (like is None or like.kind == 'Symlink'):
                 self.target = ex.concretize(ex.fresh_int(label + 'tgt', 1, 2), 1, 2, 'target')
 
